@@ -336,7 +336,32 @@ impl Model {
         }
         for e in evs {
             match e {
-                Ev::Send { pkt, size, bytes, .. } => {
+                Ev::Send { pkt, size, bytes, release_on_err } => {
+                    // P11: the "release this id if the transport cannot send" hint names the packet's own id, and only for
+                    // a packet whose exchange dies with a failed send: a first transmission that is not kept in the store
+                    // (PUBLISH QoS>0 of a non-persistent session, SUBSCRIBE, UNSUBSCRIBE). A retransmission, a stored
+                    // packet, an acknowledgement (its id is the peer's) or an id-less packet never carries one
+                    if !self.unsynced {
+                        s.hit("P11-send-error-hint-names-own-unstored-id");
+                        let path = send_path(cx.call, pkt);
+                        let want: Option<Option<u32>> = match pkt {
+                            Pkt::Subscribe { id, .. } | Pkt::Unsubscribe { id, .. } => Some(Some(*id)),
+                            Pkt::Publish { qos, id: Some(i), .. } if *qos > 0 && path == "direct" => {
+                                if self.store_mode() {
+                                    Some(None)
+                                } else {
+                                    Some(Some(*i))
+                                }
+                            }
+                            Pkt::Publish { qos, .. } if *qos > 0 => Some(None),
+                            _ => Some(None),
+                        };
+                        if let Some(w) = want {
+                            if *release_on_err != w {
+                                s.fail("C08", "P11-send-error-hint-names-own-unstored-id", format!("kind={:?};path={};got={};want={}", pkt.kind(), path, if release_on_err.is_some() { "some" } else { "none" }, if w.is_some() { "some" } else { "none" }), format!("{} requested for sending ({}) with release_packet_id_if_send_error = {:?}, expected {:?} (packets are stored: {})", pkt.short(), path, release_on_err, w, self.store_mode()));
+                            }
+                        }
+                    }
                     // what is requested for sending is what the transport writes: exactly one frame, as long as announced
                     if matches!(pkt, Pkt::Publish { .. } | Pkt::Ack { kind: AckKind::Pubrel, .. }) {
                         s.hit("S10-sent-publish-or-pubrel-is-one-well-formed-frame");
